@@ -114,8 +114,10 @@ CHECKS["C18"] = dict(
           "contract of C18 over the history of decisions (window bound, no over-blocking, specific rule overrides, n=-1 exempts, "
           "bounded state). TLC checks transcription => contract exhaustively (MC_RateLimiter, three rule sets), enumerates every "
           "arrival sequence to a depth, and validates the run of the real class on each of them (decision and complete deque state "
-          "after every call) against the transcription while evaluating the contract on every decision."),
-    technique="TLA+ RateLimiter.tla (transcription refines contract) model-checked by TLC; all TLC-enumerated arrival sequences replayed on the real class; runs validated by TLC")
+          "after every call) against the transcription while evaluating the contract on every decision. At handler level, Relay.tla's "
+          "Limited / RefuseOk actions say what a limited message may do (answered as refused, no other effect); relay schedules run with "
+          "a real RateLimiter whose decisions are logged and the traces are validated by TLC (Relay_Trace.tla)."),
+    technique="TLA+ RateLimiter.tla (transcription refines contract) model-checked by TLC; all TLC-enumerated arrival sequences replayed on the real class; runs validated by TLC; Relay.tla trace validation of limited messages at handler level")
 
 CHECKS["C20"] = dict(
     cat="model_checking", ref="DESIGN.md §5 C20",
@@ -127,7 +129,8 @@ CHECKS["C20"] = dict(
           "chunking of every stream and one peer drop (MC_Notifier; with read(32) as found it produced the counterexample that "
           "led to the repair). TLC-simulated behaviours drive the real NotifyServer.handle_notify and NotifyClient.connect over "
           "in-memory streams (symbol-aligned and with byte jitter); the look-ups and pushes of every worker are judged by TLC "
-          "against the C20 formulas (Notifier_Trace.tla)."),
+          "against the C20 formulas (Notifier_Trace.tla). An end-to-end variant joins two real DBStorage instances on one SQLite "
+          "file by the real server and client classes: the receiving worker's subscribers must be pushed each announced event."),
     technique="TLA+ Notifier.tla model-checked by TLC over all chunkings; TLC-simulated chunkings replayed on the real notifier classes; look-ups validated by TLC")
 
 CHECKS["C03"] = dict(
@@ -220,12 +223,12 @@ CHECKS["C04"]["level_override"] = "exploration"
 
 CHECKS["C19"] = dict(
     cat="exploration", ref="DESIGN.md §5 C19", note=RELAY_NOTE + (" The junk language is a grammar of typed mutations, sampled by seed in the "
-        "quick tier and complete (589 frames) in the thorough tier; frames go straight to ws_recv, so limits the websocket server "
+        "quick tier and complete (589 frames + 90 correctly signed events with hostile tags) in the thorough tier; frames go straight to ws_recv, so limits the websocket server "
         "itself imposes (message size) are not in the loop."),
     text=("Junk.tla states the contract (a junk frame is ignored, answered, or closes that one connection cleanly; the handler never "
           "raises; a connection kept open keeps answering; others are unaffected; on end all subscriptions are dropped and all tasks "
-          "finish). Each frame of the grammar is sent on one connection of web.start_client followed by REQ and EVENT probes, interleaved "
-          "with a well-behaved connection whose transcript is compared with the same run without the junk, on both backends; TLC judges "
+          "finish). Each frame of the grammar is sent on one connection of web.start_client followed by REQ and EVENT probes (the EVENT probe "
+          "must be accepted), interleaved with a well-behaved connection holding kind- and tag-filter subscriptions whose transcript is compared with the same run without the junk, on both backends; TLC judges "
           "the observations (Junk_Trace.tla)."),
     technique="TLA+ Junk.tla contract evaluated by TLC on recorded handler runs over a grammar of typed frame mutations; differential run for the second connection")
 
